@@ -311,6 +311,16 @@ def run_item(item, imm):
         elem = inst.to_etree()
         imm.check("model-mutated-by-to_etree", before_model, modelwalk.snap(inst, exact=True), item)
         imm.check("instance-dict-changed-by-to_etree", keys0, deep_dict(inst), item)
+        if sum(map(ord, item["seedstr"])) % 2:
+            # a tree as a server's file gives it: with vendor extensions in it (ignored by the conversion - C07 - but they are the
+            # caller's, too: the conversion works on a copy and leaves them where they are)
+            import xml.etree.ElementTree as _ET
+            for host in [elem] + [e for e in elem.iter() if len(e)][1:3]:
+                v = _ET.Element("INTU.BID")
+                v.text = "00012"
+                host.insert(0, v)
+                w = _ET.SubElement(host, "ZZV.EXT")
+                _ET.SubElement(w, "ZZV.K").text = "v"
         es = etree_snap(elem)
         model = Aggregate.from_etree(elem)
         imm.check("tree-mutated-by-from_etree", es, etree_snap(elem), item)
@@ -334,6 +344,15 @@ def run_item(item, imm):
     data = OFXClient("http://localhost", version=ver, prettyprint=pretty, close_elements=close).serialize(inst)
     imm.check("model-mutated-by-serialize", before_model, modelwalk.snap(inst, exact=True), item)
     imm.check("instance-dict-changed-by-serialize", keys0, deep_dict(inst), item)
+    if item["cls"] == "OFX":
+        # the per-call overrides of serialize(): another version / formatting for THIS file only - the instance stays what it is
+        for over in ({"version": 102, "close_elements": True}, {"version": 220, "prettyprint": True}, {"version": 103, "close_elements": False}):
+            try:
+                OFXClient("http://localhost", version=ver, prettyprint=pretty, close_elements=close).serialize(inst, **over)
+            except Exception:  # noqa: whether this combination is allowed is not judged here
+                pass
+        imm.check("model-mutated-by-serialize-with-overrides", before_model, modelwalk.snap(inst, exact=True), item)
+        imm.check("instance-dict-changed-by-serialize-with-overrides", keys0, deep_dict(inst), item)
     if kind == "roundtrip":
         # writing the SAME instance again in the complementary formatting must give what a fresh equal instance gives
         ver2 = ver if close else (ver if ver < 200 else 102)
